@@ -11,12 +11,13 @@ RECURSIVE Lists(_)
 Lists(S) == {<<>>} \cup UNION {{<<x>> \o t : t \in Lists(S \ {x})} : x \in S}
 Universe == Lists(0..MaxRound) \ {<<>>}
 
-Init == exp = [rounds |-> <<>>, H |-> 0, reps |-> 0]
+Init == exp = [rounds |-> <<>>, H |-> 0, K |-> 1, reps |-> 0]
 Next == /\ exp.reps = 0
-        /\ \E r \in Universe, H \in {0, 1}, n \in 1..MaxReps : exp' = [rounds |-> r, H |-> H, reps |-> n]
+        /\ \E r \in Universe, H \in {0, 1}, K \in {0, 1}, n \in 1..MaxReps : exp' = [rounds |-> r, H |-> H, K |-> K, reps |-> n]
 Spec == Init /\ [][Next]_exp
 
 Inv == exp.reps > 0 =>
          /\ Tiling(exp.rounds, exp.H) /\ CategoriesOK(exp.rounds, exp.H) /\ CalOK(exp.rounds, exp.H)
          /\ TranslateOK(exp.rounds, exp.H, exp.reps) /\ EstimateOK(exp.rounds, exp.H, exp.reps)
+         /\ DatasetOK(exp.rounds, exp.H, exp.K, exp.reps)
 =============================================================================
